@@ -207,7 +207,21 @@ impl PhoneticSuggestion {
         // Sort the suggestions.
         self.suggestions.sort();
 
-        let selection = self.get_prev_selection(&string, data, selections);
+        let mut selection = self.get_prev_selection(&string, data, selections);
+
+        // The user may have chosen the typed text itself earlier. It is offered as it was
+        // typed (its meta characters are neither converted nor curled), so look for it as such.
+        if selections.get(string.word()).map(String::as_str)
+            == Some(SplittedString::split(term, true).word())
+        {
+            if let Some(position) = self
+                .suggestions
+                .iter()
+                .position(|item| *item.to_string() == *term)
+            {
+                selection = position;
+            }
+        }
 
         (self.suggestions.clone(), selection)
     }
